@@ -158,7 +158,7 @@ class C01(object):
 
     def shrink(self, case):
         outs, pmf = case['outs'], [Fraction(p) for p in case['pmf']]
-        if len(outs) > 1 and not case.get('bad'):
+        if len(outs) > 1 and not case.get('bad') and case['form'] not in ('ndarray', 'scalar-pmf'):   # those forms list every cell
             for i in range(len(outs)):
                 rest = [p for j, p in enumerate(pmf) if j != i]
                 tot = sum(rest)
